@@ -807,7 +807,7 @@ func hostileCase(h hostileDesc) (hx.Case, outcome) {
 	if peak < 0 {
 		peak = 0
 	}
-	ms := o.CpuUs / 1000 // CPU time of the decoding process: does not depend on the load of the machine
+	ms := o.CpuUs / 1000 // user CPU time of the decode: does not depend on the load of the machine
 	if o.Cls == clsHang {
 		ms = deadlineFor(len(data)).Milliseconds() + 1001
 	}
@@ -922,7 +922,7 @@ func main() {
 	for _, h := range hostileStreams() {
 		c, o := hostileCase(h)
 		hostile = append(hostile, map[string]interface{}{"format": h.Format, "what": h.What, "bytes": len(h.Hex) / 2,
-			"declared": h.Declared, "class": o.Cls, "ms": o.Micros / 1000, "cpu_ms": o.CpuUs / 1000, "peak_mb": o.PeakMB, "msg": o.Msg,
+			"declared": h.Declared, "class": o.Cls, "ms": o.Micros / 1000, "cpu_ms": o.CpuUs / 1000, "sys_ms": o.SysUs / 1000, "peak_mb": o.PeakMB, "msg": o.Msg,
 			"within_input_proportional_budget": c.FailKey == ""})
 		if judged || c.FailKey == "" {
 			run.Add(c)
